@@ -36,6 +36,7 @@ RULE += (' Also: a refused re-entry of the active scope context inside the block
 RULE += (' Also: a tool running a groupby whose key fails once over the borrowed handle.')
 RULE += (' Also: after a refused close (read pending) the idle handle is closed again and must be dead; degenerate-parameter tools (nlargest 0, nsmallest -1, islice 0) on shared handles.')
 RULE += (' Also: a scope context created over a live handle and entered after the handle was closed; the grouper idiom (one handle at every position).')
+RULE += (" Also: a handle closed while the owner's own read of the underlying iterator is in flight; empty slices that still skip (islice 2,2 / 3,1 / 2,0,3) on shared handles.")
 ASSUMPTIONS = ["laziness of the tools themselves is C05's concern; here the stdlib twin predicts how many items a tool takes",
                "athrow is not part of the property's operation list and is not generated"]
 EXHAUSTIVE_SUBSPACES = 'all histories of length <= 3 (thorough: 4) over a 13-operation alphabet'
@@ -240,6 +241,10 @@ TOOLS = {
     "nlargest0": ("agg", lambda h: A.nlargest(h, 0), lambda it: heapq.nlargest(0, it)),
     "nsmallest_neg": ("agg", lambda h: A.nsmallest(h, -1), lambda it: heapq.nsmallest(-1, it)),
     "islice_0": ("iter", lambda h: A.islice(h, 0), lambda it: itertools.islice(it, 0)),
+    # ... and EMPTY slices that, like the counterpart's, still skip their leading items on the shared handle
+    "islice_2_2": ("iter", lambda h: A.islice(h, 2, 2), lambda it: itertools.islice(it, 2, 2)),
+    "islice_3_1": ("iter", lambda h: A.islice(h, 3, 1), lambda it: itertools.islice(it, 3, 1)),
+    "islice_2_0_3": ("iter", lambda h: A.islice(h, 2, 0, 3), lambda it: itertools.islice(it, 2, 0, 3)),
     "reduce": ("agg", lambda h: A.reduce(lambda a, b: a, h, None), lambda it: __import__("functools").reduce(lambda a, b: a, it, None)),
     "sum_items": ("agg", lambda h: A.sum(h, Item(0, "s")), lambda it: sum(it, Item(0, "s"))),
 }
@@ -306,6 +311,10 @@ def cases(tier, seed, shard, nshards):
                         if idx % nshards == shard:
                             yield {"kind": "conc_close", "flav": flav, "reborrow": reborrow, "close_at": close_at,
                                    "susp": susp, "via": via}
+                            if via == "handle":
+                                # ... while the OWNER is waiting for an item from the underlying iterator itself
+                                yield {"kind": "conc_close", "flav": flav, "reborrow": reborrow, "close_at": close_at,
+                                       "susp": susp, "via": via, "reader": "owner"}
     rng = random.Random(f"C07-{seed}-{shard}")
     for _ in range(N_RANDOM[tier] // nshards):
         yield {"ops": gen_history(rng), "flav": rng.choice(FLAVS), "keys": [rng.randrange(4) for _ in range(rng.randint(0, 9))]}
@@ -666,12 +675,14 @@ def run_conc_close(case, stats):
     target = parent if case["via"] == "parent" else handle
     reads, info = [], {"closed": False}
 
+    by_owner = case.get("reader") == "owner"
+
     async def reader():
         for _ in range(5):
-            rec = {"pos": st.pos, "after_close": info["closed"]}
+            rec = {"pos": st.pos, "after_close": info["closed"] and not by_owner}
             reads.append(rec)
             try:
-                rec["got"] = await handle.__anext__()
+                rec["got"] = await (under.__anext__() if by_owner else handle.__anext__())
             except StopAsyncIteration:
                 rec["got"] = "STOP"
                 break
@@ -742,7 +753,31 @@ def run_conc_close(case, stats):
             viols.append({"key": "borrow/scoped-handle-alive-after-its-scope",
                           "msg": f"{head}: after the scope was left its handle still gave {probes.get('after')!r} "
                                  f"(asend: {probes.get('asend')!r})"})
-    if info["closed"] and case["via"] == "handle":
+    if info["closed"] and by_owner:
+        # the handle was closed while the owner's own read was in flight: the handle is closed all the same - nothing
+        # comes through it any more, neither by __anext__ nor by asend
+        async def probe_closed():
+            out = {}
+            pos = st.pos
+            for name in ("__anext__", "asend"):
+                if not hasattr(target, name):
+                    continue
+                try:
+                    out[name] = await (target.__anext__() if name == "__anext__" else target.asend(None))
+                except StopAsyncIteration:
+                    out[name] = "STOP"
+                except BaseException as exc:  # noqa: BLE001
+                    out[name] = repr(exc)
+            out["advanced"] = st.pos - pos
+            return out
+        if all(t.done for t in driver.tasks):
+            out = drive(probe_closed())
+            stats["handles_closed_during_the_owners_own_read"] += 1
+            if out.get("__anext__", "STOP") != "STOP" or out.get("asend", "STOP") != "STOP" or out["advanced"]:
+                viols.append({"key": "borrow/closed-handle-still-yields",
+                              "msg": f"{head}: the handle was closed while the owner was reading the underlying iterator; "
+                                     f"afterwards the closed handle gave {out}"})
+    if info["closed"] and case["via"] == "handle" and not by_owner:
         stats["concurrent_close_accepted"] += 1
         for rec in reads:
             if rec["after_close"] and (rec["got"] != "STOP" or rec["pos_after"] != rec["pos"]):
